@@ -933,7 +933,8 @@ fn gcase() -> BoxedStrategy<QCase> {
         prop_oneof![
             9 => proptest::collection::vec((gk(), gv()), 0..=4),
             // a collection that already holds more than 16 / 32 entries
-            1 => (17usize..=40, gv()).prop_map(|(n, v)| (0..n).map(|i| (format!("q{i:02}"), v.clone())).collect::<Vec<_>>()),
+            1 => (prop_oneof![2 => (17usize..=40).boxed(), 1 => crate::spell::gcount(70)], gv())
+                .prop_map(|(n, v)| (0..n).map(|i| (format!("q{i:02}"), v.clone())).collect::<Vec<_>>()),
         ],
         proptest::collection::vec(gqop(), 0..=30),
         proptest::collection::vec(any::<u8>(), 0..=24),
